@@ -334,6 +334,11 @@ def compare_ep(case, ep, rel, res1, res2, box1, box2, pads, atol_free, amp=1.0, 
         kk = None
         if k.per_row and keep is not None:
             kk = keep_md if k.md else keep
+            if name.endswith('_err') and '_err_undefined' in out1 and '_err_undefined' in out2:
+                und = np.asarray(out1['_err_undefined'], bool) | np.asarray(out2['_err_undefined'], bool)
+                if und.shape == kk.shape:
+                    case.note(f'err_columns_not_judged:{ep.name}', int((kk & und).sum()))
+                    kk = kk & ~und
         if k.kind in ('theta_deg', 'theta_rad') and all(n in out1 for n in ('covar_sigx2', 'covar_sigy2',
                                                                              'covar_sigxy')):
             # the orientation of an isotropic second-moment matrix is undefined (atan2(0, 0)): compared only
